@@ -73,6 +73,9 @@ func c18CheckWrite(c c18WriteCase) engine.Result {
 	var res engine.Result
 	k := c.Len / 188
 	in := make([]byte, c.Len)
+	if c.Len == 0 && c.Adapter%2 == 1 {
+		in = nil // the empty slice as nil for every other adapter
+	}
 	var spw ref.ScriptedPacketWriter
 	for second := 0; second < 2; second++ {
 		// second==1: the same slice is written twice through one adapter (its packet buffer is
